@@ -25,6 +25,7 @@ import (
 	"github.com/rqlite/rqlite/v10/internal/fsutil"
 	"github.com/rqlite/rqlite/v10/internal/rsum"
 	"github.com/rqlite/rqlite/v10/internal/rsync"
+	"github.com/rqlite/rqlite/v10/internal/verifhook"
 )
 
 const (
@@ -1200,6 +1201,9 @@ func (db *DB) executeWithConn(ctx context.Context, req *command.Request, xTime b
 			continue
 		}
 
+		if verifhook.Enabled {
+			verifhook.Hit("db.execute.stmt/" + db.path)
+		}
 		result, err := db.executeStmtWithConn(ctx, stmt, xTime, eqer, time.Duration(req.DbTimeout))
 		if err != nil {
 			if handleError(result, err) {
@@ -1579,6 +1583,9 @@ func (db *DB) RequestWithContext(ctx context.Context, req *command.Request, xTim
 			continue
 		}
 
+		if verifhook.Enabled {
+			verifhook.Hit("db.request.stmt/" + db.path)
+		}
 		ro, err := db.StmtReadOnlyWithConn(ss, conn)
 		if err != nil {
 			eqResponse = append(eqResponse, &command.ExecuteQueryResponse{
